@@ -106,11 +106,11 @@ func buildOverlay(spec *CheckSpec) (map[string][]byte, map[string][]byte, error)
 		// native: harness goes into a _test file so that it can use the test-only intrinsics
 		nat[filepath.Join(pkgDir(pkg), "zz_verif_"+strings.TrimSuffix(f, ".go")+"_test.go")] = b
 	}
-	intr, err := os.ReadFile(filepath.Join(hdir, "intrinsics.go.tmpl"))
+	intr, err := os.ReadFile(filepath.Join(hdir, "intr_sym.tmpl"))
 	if err != nil {
 		return nil, nil, err
 	}
-	natIntr, err := os.ReadFile(filepath.Join(hdir, "intrinsics_native.go.tmpl"))
+	natIntr, err := os.ReadFile(filepath.Join(hdir, "intr_native.tmpl"))
 	if err != nil {
 		return nil, nil, err
 	}
